@@ -56,10 +56,16 @@ SCALAR = {"Evt": "met", "Jet": "pt", "Trk": "pt"}
 
 
 @st.composite
-def _val(draw, var, cls, depth, names, ctr):
+def _val(draw, var, cls, depth, names, ctr, outer=()):
     def mark():
         ctr[0] += 1
         return 100 + ctr[0]
+
+    if outer and draw(st.integers(0, 4)) == 0:
+        # a call site on a variable of an ENCLOSING lambda (the nested lambda's own variable does not hide it)
+        ovar, ocls = draw(st.sampled_from(list(outer)))
+        mine = draw(_val(var, cls, 0, names, ctr))
+        return ["bin", draw(st.sampled_from(["+", "*"])), mine, ["site", ["var", ovar], ocls, _scalar_of(draw, ocls), mark()]]
 
     c = draw(st.integers(0, 9)) if depth > 0 else draw(st.integers(0, 1))
     if c <= 1:
@@ -68,7 +74,7 @@ def _val(draw, var, cls, depth, names, ctr):
         coll, child = CHILD[cls]
         src = ["site", ["var", var], cls, coll, mark()]
         v2 = draw(st.sampled_from(names))
-        inner = draw(_val(v2, child, depth - 1, names, ctr))
+        inner = draw(_val(v2, child, depth - 1, names, ctr, tuple((n, c_) for n, c_ in tuple(outer) + ((var, cls),) if n != v2)))
         k = draw(st.integers(0, 4))
         if k == 0:
             return ["count", ["op", "Select", src, v2, inner]]
@@ -94,10 +100,10 @@ def _val(draw, var, cls, depth, names, ctr):
     if c == 8 and draw(st.booleans()):
         # the value is handed to a function, positionally or BY KEYWORD: an unregistered back-end function (left as written) or a
         # registered one without processor (normalised to positional form); call sites inside the argument are still sites
-        inner = draw(_val(var, cls, depth - 1, names, ctr))
+        inner = draw(_val(var, cls, depth - 1, names, ctr, outer))
         return ["wrap", draw(st.sampled_from(["sqrt", "fn3"])), draw(st.sampled_from(["pos", "kw", "kw", "kw2"])), inner]
     if c == 8:
-        return ["bin", draw(st.sampled_from(["+", "*"])), draw(_val(var, cls, depth - 1, names, ctr)), draw(_val(var, cls, depth - 1, names, ctr))]
+        return ["bin", draw(st.sampled_from(["+", "*"])), draw(_val(var, cls, depth - 1, names, ctr, outer)), draw(_val(var, cls, depth - 1, names, ctr, outer))]
     return ["site", ["var", var], cls, _scalar_of(draw, cls), mark()]
 
 
